@@ -98,6 +98,22 @@ def main():
     mdir, prop, name = sys.argv[1], sys.argv[2], sys.argv[3]
     do_all = "--all" in sys.argv
     out_dir = os.path.join(VERIF, "seeded", name)
+    if "--recheck" in sys.argv:
+        # re-run only the own property's quick check for an already confirmed change (mdir = seeded/<name>)
+        meta = json.load(open(os.path.join(out_dir, "meta.json")))
+        if not meta.get("kept"):
+            return
+        r = run_checks(out_dir, [prop])
+        if "error" in r:
+            print(f"{name}: {r}")
+            return
+        meta.setdefault("check_results", {})[prop] = r[prop]
+        meta["caught_by_own_property"] = r[prop]["exit"] == 1
+        meta["caught_by"] = sorted(p for p, v in meta["check_results"].items() if isinstance(v, dict) and v.get("exit") == 1)
+        meta["rechecked_with_final_checks"] = True
+        json.dump(meta, open(os.path.join(out_dir, "meta.json"), "w"), indent=1)
+        print(f"{name}: recheck: own check {'CATCHES' if meta['caught_by_own_property'] else 'MISSES'} it ({r[prop]['wall_s']}s)")
+        return
     c = confirm(mdir, name)
     meta = {"breaks_property": prop, "name": name, "confirmation": c, "source": "independent sub-agent given only the property text and a scratch worktree"}
     readme = os.path.join(mdir, "README.md")
